@@ -837,7 +837,7 @@ mod n {
     fn n_c15_check() {
         drive(
             "C15.check",
-            "check(&Model): 2 spaces; every link over {ok, nil, absent, id of an element of another collection}: wall 0 space x construction x adjacent {none,ok,nil,absent,wall id}; wall 1 space; window 0 wall x construction; window 1 wall; 2 bridges each over length {-1,-0.0,0,1}",
+            "check(&Model): 2 spaces; every link over {ok, nil, absent, id of an element of another collection}: wall 0 space x construction x adjacent {none,ok,nil,absent,wall id} x boundary kind {interior,exterior,ground,adiabatic}; wall 1 space; window 0 wall x construction; window 1 wall; 2 bridges each over length {-1,-0.0,0,1}",
             |c| {
                 let mut m = empty_model();
                 m.spaces.push(space(0xA0, true, SpaceType::CONDITIONED, 1.0, 3.0));
@@ -859,7 +859,9 @@ mod n {
                     3 => (Some(uid(0xDEAD)), false),
                     _ => (Some(uid(2)), false), // the id of a wall, not of a space
                 };
-                m.walls.push(wall(1, BoundaryType::INTERIOR, sp, nid, cn, 90.0, 0.0, rect(4.0, 3.0), None));
+                // the adjacent-space link is checked whatever the wall's boundary kind (a party wall may carry one too)
+                let kind0 = c.of(&[BoundaryType::INTERIOR, BoundaryType::EXTERIOR, BoundaryType::GROUND, BoundaryType::ADIABATIC]);
+                m.walls.push(wall(1, kind0, sp, nid, cn, 90.0, 0.0, rect(4.0, 3.0), None));
                 for ok in [ok_sp, ok_cn, ok_nx] {
                     if !ok {
                         want.push(uid(1));
@@ -895,7 +897,7 @@ mod n {
                     }
                     ls.push(l);
                 }
-                c.note(format!("wall0: space ok={} cons ok={} next#{} | wall1 space ok={} | win0 wall ok={} cons ok={} | win1 wall ok={} | l={:?}", ok_sp, ok_cn, nx, ok_sp1, ok_ww, ok_wc, ok_ww1, ls));
+                c.note(format!("wall0 ({:?}): space ok={} cons ok={} next#{} | wall1 space ok={} | win0 wall ok={} cons ok={} | win1 wall ok={} | l={:?}", kind0, ok_sp, ok_cn, nx, ok_sp1, ok_ww, ok_wc, ok_ww1, ls));
                 let before = m.as_json().unwrap();
                 let ws = check(&m);
                 let after = m.as_json().unwrap();
